@@ -42,7 +42,7 @@ open Comdex Comdex.Line Comdex.DutchV2
 def names : List (String × Acct) :=
   [("b1", .bidder 1), ("b2", .bidder 2), ("b3", .bidder 3), ("b4", .bidder 4), ("auction", .auction),
    ("collector", .collector), ("owner", .owner), ("keeper", .keeper), ("initiator", .initiator),
-   ("reserve", .reserve), ("vault", .vaultMod), ("pool", .pool)]
+   ("reserve", .reserve), ("vault", .vaultMod), ("pool", .pool), ("lendres", .lendres), ("poolin", .poolIn)]
 
 def acctOf (n : String) : Option Acct := (names.find? (·.1 = n)).map (·.2)
 def bidderNo (n : String) : Option Nat :=
@@ -55,6 +55,7 @@ structure Obs where
   ext : Int
   res : Option Int
   supply : Int
+  tr : Int × Int := (0, 0)      -- bridge-asset balances of the debt pool and of the collateral's pool (lend, cross-pool)
 
 
 /-! ### first generation -/
@@ -138,16 +139,20 @@ def parseObs (r b m : String) : Option Obs := do
   let net ← getI fs "net"; let ext ← getI fs "ext"; let supply ← getI fs "supply"
   let resS ← field? fs "res"
   let res ← if resS = "none" then some none else (parseInt? resS).map some
-  pure { auc := rec, bals := bals, net := net, ext := ext, res := res, supply := supply }
+  let tr : Int × Int := match (field? fs "tr").map (·.splitOn ":") with
+    | some [a, b] => ((parseInt? a).getD 0, (parseInt? b).getD 0)
+    | _ => (0, 0)
+  pure { auc := rec, bals := bals, net := net, ext := ext, res := res, supply := supply, tr := tr }
 
 def balOf (o : Obs) (n : String) : Int × Int :=
   match o.bals.find? (·.1 = n) with | some (_, c, d) => (c, d) | none => (0, 0)
 
 def bankOf (o : Obs) : Bank :=
+  let b0 : Bank := (Bank.set (Bank.set [] Acct.pool Denom.transit o.tr.1) Acct.poolIn Denom.transit o.tr.2)
   o.bals.foldl (fun b (n, c, d) =>
     match acctOf n with
     | some a => (b.set a .coll c).set a .debt d
-    | none => b) []
+    | none => b) b0
 
 /-- model-side projection in the same shape as the real observation -/
 def modelObs (st : St) (o : Obs) : Obs :=
@@ -156,17 +161,18 @@ def modelObs (st : St) (o : Obs) : Obs :=
       match acctOf n with
       | some a => (n, st.s.bank.get a .coll, st.s.bank.get a .debt)
       | none => (n, 0, 0),
-    net := st.s.netFees, ext := st.s.extFees, res := st.s.reserve, supply := st.supply0 - st.s.burned }
+    net := st.s.netFees, ext := st.s.extFees, res := st.s.reserve, supply := st.supply0 - st.s.burned,
+    tr := (st.s.bank.get .pool .transit, st.s.bank.get .poolIn .transit) }
 
 def showBals (l : List (String × Int × Int)) : String :=
   ",".intercalate (l.map fun (n, c, d) => s!"{n}:{c}:{d}")
 
 def showObs (o : Obs) : String :=
   let res := match o.res with | none => "none" | some q => toString q
-  s!"{showRec o.auc} {showBals o.bals} net={o.net};ext={o.ext};res={res};supply={o.supply}"
+  s!"{showRec o.auc} {showBals o.bals} net={o.net};ext={o.ext};res={res};supply={o.supply};tr={o.tr.1}:{o.tr.2}"
 
 def sameObs (a b : Obs) : Bool :=
-  a.auc == b.auc && a.bals == b.bals && a.net == b.net && a.ext == b.ext && a.res == b.res && a.supply == b.supply
+  a.auc == b.auc && a.bals == b.bals && a.net == b.net && a.ext == b.ext && a.res == b.res && a.supply == b.supply && a.tr == b.tr
 
 /-- adopt the real observation as the model state (after a divergence) keeping the ghosts -/
 def adopt (st : St) (o : Obs) : St :=
@@ -184,7 +190,8 @@ def parseEnv (s : String) : Option Env :=
     let premium ← getI fs "premium"; let discount ← getI fs "discount"; let cmst ← getI fs "cmst"
     pure { kind := kind, decC := decC, decD := decD, target := target, fee := fee, bonus0 := bonus0, coll0 := coll0,
            isKeeper := keeper = 1, incentive := incentive, minUsd := minUsd, T := T, premium := premium,
-           discount := discount, cmst := cmst = 1 }
+           discount := discount, cmst := cmst = 1,
+           lendPen := (getI fs "lendPen").getD 0, lendInt := (getI fs "lendInt").getD 0, bridged := (getI fs "bridged").getD 0 }
 
 def parseLB (s : String) : Option (List (Int × String × Int)) :=
   if s = "-" ∨ s = "" then some [] else
@@ -278,7 +285,7 @@ def finish (st : St) (seq : String) (outcomeModelOk : Bool) (outcome : String) (
         let custody := decide (aC = st.baseC) && decide (aD + shortReal = baseD + (o.ext - st.ext0))
         let dlt (n : String) : Int := (balOf o n).2 - (balOf b0 n).2
         let burned := b0.supply - o.supply
-        let out := burned + dlt "collector" + dlt "keeper" + dlt "initiator" + dlt "pool" + (o.ext - st.ext0)
+        let out := burned + dlt "collector" + dlt "keeper" + dlt "initiator" + dlt "pool" + dlt "lendres" + (o.ext - st.ext0)
         let proceeds := decide (realPaid - overReal + drawn + shortReal = out) && decide (out = st.e.target)
         let ownerOk := decide ((balOf o "owner").1 - (balOf b0 "owner").1 = st.e.coll0 - realRecv)
         mon seq ("close_distributes" ++ sfx) (custody && proceeds && ownerOk)
